@@ -222,6 +222,11 @@ func solveCovers(obls []*Obligation, opt solveOpts) {
 					if r != "unsat" {
 						reached = true
 					}
+					if (r == "unsat" || os.Getenv("GOVC_DUMPALL") != "") && opt.workDir != "" {
+						name := strings.NewReplacer("/", "_", ":", "_", "*", "P", "(", "", ")", "", " ", "_", "$", "_").Replace(o.ID())
+						os.MkdirAll(opt.workDir, 0o755)
+						os.WriteFile(filepath.Join(opt.workDir, fmt.Sprintf("%s.p%s.smt2", name, strings.ReplaceAll(o.Path, ".", "_"))), []byte(queryText(*o.Prelude, o, false)), 0o644)
+					}
 				}
 			}
 		}()
